@@ -21,10 +21,10 @@ func init() { register("C09", checkC09) }
 func checkC09(w *World, r *Report) {
 	r.Explanation = "Decides: (VEST-SHARE) in the routine that fills the vesting queue, the amount stored for an instalment is TruncateInt(MulTruncate(Dec(total), weight)) — rounding direction FLOOR — where total is the very coin swept from the paying escrow into the vesting escrow (the escrow's whole balance of the paying denomination) and weight/release time belong to the same schedule entry that keys the record; (VEST-REM) the alternative stored amount is the running remainder R with R0 = total and R' = R − (amount just stored), and it is selected exactly when the loop index equals len(schedules)−1 of the iterated schedule list; (VEST-ONCE) in the releasing routine every transfer out of the vesting escrow is of the iterated record's own PayingCoin to the auction's auctioneer and is followed, before the loop continues or returns, by a VestingQueue write of that record with Released=true under the key rebuilt from its own (auction id, release time); (VEST-WRITERS) the vesting queue is written only by settlement (Released=false), release (Released=true) and genesis import; no message handler reaches a write."
 	r.NotDecided = "Σ instalments = proceeds as a number for 1..100 weights (VEST-REM is its structural reason); schedule validity arithmetic (weights sum to one)."
-	r.Rule("VEST-SHARE", "instalment = floor(total × weight) of the swept total, keyed by its own schedule entry", 2)
-	r.Rule("VEST-REM", "last instalment takes the running remainder", 2)
-	r.Rule("VEST-ONCE", "release transfer ⇔ Released persisted for the same record", 3)
-	r.Rule("VEST-WRITERS", "vesting queue writers", 3)
+	r.Rule("VEST-SHARE", "instalment = floor(total × weight) of the swept total, keyed by its own schedule entry", 1)
+	r.Rule("VEST-REM", "last instalment takes the running remainder", 1)
+	r.Rule("VEST-ONCE", "release transfer ⇔ Released persisted for the same record", 2)
+	r.Rule("VEST-WRITERS", "vesting queue writers", 2)
 	r.Rule("VEST-DISTINCT", "release times are strictly increasing and after the end time (they key the queue)", 4)
 	vestingObligations(w, r, NewTerms(w))
 	r.Sub(checkC08, "TIME-REL", "FINISH-LAST")
